@@ -106,7 +106,7 @@ pub mod posix {
     use vstd::prelude::*;
     use super::*;
 
-    // W-contract (Kani: w_pipe): two fresh ends of one new pipe, read end first, both inheritable (plain pipe())
+    // W-contract (Kani: w_pipe): two fresh ends of one new pipe, read end first, both BORN close-on-exec (pipe2(O_CLOEXEC))
     #[verifier::external_body]
     pub fn pipe(Tracked(w): Tracked<&mut World>) -> (r: io::Result<(File, File)>)
         requires !old(w).s.in_child,
@@ -115,7 +115,7 @@ pub mod posix {
                 &&& peer(rd.obj@) == wr.obj@ && peer(wr.obj@) == rd.obj@ && is_read_end(rd.obj@) && !is_read_end(wr.obj@) && rd.obj@ != wr.obj@
                 &&& lib_created(rd.obj@) && lib_created(wr.obj@) && rd.fd >= 3 && wr.fd >= 3   // trusted: the parent's descriptors 0..2 are open, so new descriptors are >= 3
                 &&& !old(w).s.inheritable.contains(rd.obj@) && !old(w).s.cloexec.contains(rd.obj@) && !old(w).s.inheritable.contains(wr.obj@) && !old(w).s.cloexec.contains(wr.obj@)
-                &&& final(w).s == (SW { inheritable: old(w).s.inheritable.insert(rd.obj@).insert(wr.obj@), ..old(w).s })
+                &&& final(w).s == (SW { cloexec: old(w).s.cloexec.insert(rd.obj@).insert(wr.obj@), ..old(w).s })
             },
             Err(e) => final(w).s == old(w).s,
         }
